@@ -129,6 +129,10 @@ func rtreeValueDown(d float64) float32 {
 		} else {
 			f = float32(d * dRNDTOWARDS)
 		}
+		if float64(f) > d {
+			// the scaled value rounded back to f (float32 subnormal range)
+			f = math.Nextafter32(f, float32(math.Inf(-1)))
+		}
 	}
 	return f
 }
@@ -139,6 +143,10 @@ func rtreeValueUp(d float64) float32 {
 			f = float32(d * dRNDTOWARDS)
 		} else {
 			f = float32(d * dRNDAWAY)
+		}
+		if float64(f) < d {
+			// the scaled value rounded back to f (float32 subnormal range)
+			f = math.Nextafter32(f, float32(math.Inf(1)))
 		}
 	}
 	return f
